@@ -149,6 +149,7 @@ def run(ctx, rep):
     cs = cs_closures(fx)
     npoll = nsend = 0
     ntouch = 0
+    npend = ndisc = 0
     for b in fx.bodies.values():
         if not b.is_fn_like() or not touches_inner(b):
             continue
@@ -163,14 +164,39 @@ def run(ctx, rep):
         fc = FnCtx(b)
         add = adder(rep, b)
         if creator.item_name == "poll":
+            ncs = len(FnCtx(creator).calls("critical_section::with"))
+            rep.add("R34b", creator.sname, "poll tests for a value and registers the waker in ONE critical section", ncs == 1,
+                    "poll uses %d critical sections: a send between the value test and the waker registration is neither seen nor able to wake the receiver (lost wake-up)" % ncs,
+                    creator.loc())
+            stores = waker_store_blocks(fc)
+            if stores:
+                def neg_value(ce):
+                    e = ce.expr
+                    if e[0] == "discr":
+                        sc = e[1]
+                        if sc[0] == "call" and E.is_call(sc, "Option::take", "VecDeque::pop_front") and sc[2] and field_of(sc[2][0]) == "data":
+                            return 0
+                    if e[0] in ("param", "local", "call", "proj") and field_of(e) == "notified":
+                        return "false"
+                    return None
+                g = fc.guards(neg_value)
+                add("R34b", "waker is registered only after the value test failed in the same critical section",
+                    bool(g) and fc.only_through(stores, g),
+                    "the closure stores the waker without having tested for an available value itself (check-then-register is not atomic)")
             p, d = check_poll(fc, add)
             npoll += 1
-            rep.floor("R34b-" + creator.sname, p, 1, "Poll::Pending constructions in " + creator.sname)
-            rep.floor("R34d-" + creator.sname, d, 1, "disconnected results in " + creator.sname)
+            npend += p
+            ndisc += d
         else:
             nsend += check_sender(fc, add, creator)
     rep.floor("R34a", ntouch, 9, "bodies touching channel state")
     rep.floor("R34b", npoll, 3, "poll closures (oneshot, mpsc, notification)")
+    # Pending built outside the closures (in the poll body itself) still counts
+    for b in fx.bodies.values():
+        if b.kind == "AssocFn" and b.item_name == "poll" and b.file.endswith(("oneshot.rs", "mpsc.rs", "notification.rs")):
+            npend += len(FnCtx(b).aggregates("Poll", "Pending"))
+    rep.floor("R34b-pending", npend, 3, "Poll::Pending constructions in channel polls")
+    rep.floor("R34d", ndisc, 3, "disconnected results in channel polls")
     rep.floor("R34c", nsend, 6, "sender-side writes of receiver-visible fields")
     # R34e FIFO
     allowed = ("VecDeque::push_back", "VecDeque::pop_front", "VecDeque::len")
